@@ -5,6 +5,7 @@
   `.boxed` (which keeps the model's fuel aligned). Lemmas: Proofs/Lemmas/DescSim.lean.
 -/
 import ChumskyModel.Proofs.Lemmas.DescSim
+import ChumskyModel.Proofs.Lemmas.ExtDeco
 set_option linter.unusedSimpArgs false
 namespace Chumsky
 
@@ -79,6 +80,41 @@ example :
       | _ => (none, [])) = (none, [⟨(2, 3), .ef [.label 3] (some 120), [(.label 2, (1, 2))]⟩]) := by
   decide +kernel
 
+/-- **every grammar with extensions** (`EEnv`: any number of Pratt tables and nested-input parsers containing each other): erasing
+    the decorations everywhere — main grammar, definitions, atom and operator parsers of every table, both parsers of every nested
+    parse — never changes acceptance, the output (incl. every span handed to an operator callback), the cursor, the inspector,
+    the context, or the number of errors. Proof: `pratt_go` preserves the simulation of its atom / operator parsers through all
+    its rewinds (`prattGo_sim`, for the strong and the weak relation alike); `NestedIn::go` preserves the weak one across the
+    sub-context (`nestedStep_simW`); one induction ties the knot (`runE_simW`). -/
+theorem c17_extensions_erasure_any_grammar (e : EEnv) (n : Nat) (env : Env) (hm : env.memoOn = false) (hek : env.ek ≠ .empty)
+    (m : Mode) (g : G) :
+    TopSimW (parseTopE e n env m g)
+      (parseTopE (e.erase true) n { env with defs := env.defs.map G.eraseDeco } m g.eraseDeco) :=
+  parseTopE_decoSim_weak e n env hm hek m g
+
+/-- at the level of runs, from related states -/
+theorem c17_extensions_erasure_run (e : EEnv) (n : Nat) (env : Env) (hm : env.memoOn = false) (hek : env.ek ≠ .empty) (m : Mode)
+    (g : G) (st1 st2 : St) (hs : StSimW st1 st2) :
+    OutSimW (runE e n env m g st1)
+      (runE (e.erase true) n { env with defs := env.defs.map G.eraseDeco } m g.eraseDeco st2) :=
+  runE_decoSim_weak e n env hm hek m g st1 st2 hs
+
+/-- non-vacuity: a labelled Pratt table inside a labelled nested parse — `x * G` with `G = [x, +, y]`; decorated and erased
+    parses both accept and end at the same position -/
+example :
+    let e : EEnv := { base := 100, gap := 1, groups := [(1000, [120, 43, 121])],
+                      exts := [.pratt (.labelled 1 true (.or_ (.oneOf [120, 121]) (.call 101)))
+                                 [.infix true 1 (.labelled 2 false (.just [43])), .infix true 2 (.mapErr 3 (.just [42]))],
+                               .nested (.labelled 4 true (.call 100)) (.select [1000])] }
+    let env : Env := { toks := [120, 42, 1000], kind := .mapped, tspans := layoutSpans 1 3 0, eoi := (10, 10), memoOn := false }
+    ((match parseTopE e 60 env .emit (.labelled 5 false (.call 100)) with
+      | .result r f => (r.output.isSome, r.errs.length, f.pos) | _ => (false, 99, 0)),
+     (match parseTopE (e.erase true) 60 { env with defs := env.defs.map G.eraseDeco } .emit (G.labelled 5 false (.call 100)).eraseDeco with
+      | .result r f => (r.output.isSome, r.errs.length, f.pos) | _ => (false, 99, 0))) = ((true, 0, 3), (true, 0, 3)) := by
+  decide +kernel
+
+#print axioms c17_extensions_erasure_any_grammar
+#print axioms c17_extensions_erasure_run
 #print axioms c17_erasure
 #print axioms c17_erasure_run
 #print axioms c17_erasure_any_grammar
